@@ -1,2 +1,4 @@
 pub mod c12;
 pub mod c15;
+pub mod c17;
+pub mod c11;
